@@ -386,19 +386,20 @@ namespace fixedmath
   /// \brief Returns the product of two fixed_t point values.
   namespace detail
     {
+    ///\returns true when \param result is in range lowest() .. max()
     constexpr bool check_multiply_result( fixed_t result )
       { 
-      return (result < as_fixed( fixed_internal(0x7fffffffffff0000ll) )
-        || result > as_fixed( fixed_internal(-0x7fffffffffff0000ll)) );
+      return result <= std::numeric_limits<fixed_t>::max()
+          && result >= std::numeric_limits<fixed_t>::lowest();
       }
     
     [[ gnu::const, gnu::always_inline ]]
     constexpr fixed_t fixed_multiplyi (fixed_t lh, fixed_t rh) noexcept
       {
-      fixed_t result { fix_carrier_t{ lh.v * rh.v }};
-
-      if( fixed_likely( check_multiply_result(result)) )
-        return fix_carrier_t{ result.v >> 16 };
+      fixed_internal result{};
+      //product is checked for overflow before it is used, signed overflow is undefined
+      if( fixed_likely( !__builtin_mul_overflow( lh.v, rh.v, &result ) ) )
+        return fix_carrier_t{ result >> 16 };
       
       return quiet_NaN_result();
       }
@@ -428,10 +429,10 @@ namespace fixedmath
     [[ gnu::const, gnu::always_inline ]]
     constexpr fixed_t fixed_multiply_scalar (fixed_t lh, integral_type rh) noexcept
       {
-      fixed_t result { fix_carrier_t{ lh.v * promote_type_to_signed(rh) }};
-
-      if( fixed_likely( check_multiply_result(result)) )
-        return result;
+      fixed_internal result{};
+      //type generic builtin multiplies exact values of both operands, including uint64_t above range of int64_t
+      if( fixed_likely( !__builtin_mul_overflow( lh.v, rh, &result ) && check_multiply_result( as_fixed(result) ) ) )
+        return as_fixed(result);
       return quiet_NaN_result();
       }
     template<typename integral_type,
